@@ -1,5 +1,6 @@
 (** C15 — property theorems only.  Each is closed by [exact] of a lemma in Proofs*.v and followed by
     [Print Assumptions]. *)
+From Coq Require Import Sorting.Permutation.
 From V Require Import Base.Util Gql.Ast C15.Model C15.Spec C15.Proofs1 C15.Proofs2 C15.Proofs3 C15.Proofs4 C15.Proofs5 C15.Proofs C15.Corr C15.CorrProofs.
 
 (** For every schema model M satisfying the guard, every key style and with or without the introspection types in
@@ -15,6 +16,18 @@ Theorem C15_routes_agree : forall st meta M D,
   exists Sj, json_route (introspect st meta M) = Ok Sj /\ schema_equiv_on (vis_of M) Sj (ast_to_type_system D).
 Proof. exact routes_agree. Qed.
 Print Assumptions C15_routes_agree.
+
+(** The order in which the introspection result lists its types is immaterial (any permutation of the standard
+    listing, names distinct). *)
+Theorem C15_routes_agree_any_order : forall st meta M D types,
+  model_ok M = true ->
+  Permutation types (listed_types meta M) ->
+  nodup_str (map mt_name types) = true ->
+  doc_equiv D (sdl_doc M) ->
+  parsed_positions D ->
+  exists Sj, json_route (introspect_of st types M) = Ok Sj /\ schema_equiv_on (vis_of M) Sj (ast_to_type_system D).
+Proof. exact routes_agree_any_order. Qed.
+Print Assumptions C15_routes_agree_any_order.
 
 (** No guard: the JSON route never rejects a standard introspection result, and the optional keys of the
     result (absent or null) make no difference. *)
@@ -84,7 +97,7 @@ Print Assumptions C15_doc_equiv_b_sound.
     SDL of M says, M satisfies the guard), then the implementation's own two outputs are equivalent — by
     C15_routes_agree, not by comparing them. *)
 Theorem C15_certified_case : forall st meta M D J out_sdl out_json,
-  agree (CRoutes false true st meta M D J out_sdl out_json) = true ->
+  agree (CRoutes false true st meta [] M D J out_sdl out_json) = true ->
   exists Sj, out_json = Ok Sj /\ schema_equiv_on (vis_of M) Sj out_sdl.
 Proof. exact certified_case. Qed.
 Print Assumptions C15_certified_case.
